@@ -109,7 +109,20 @@ Definition pap_args_pure (p:prog) : Prop := wfp true p.
 
 (** ** relations *)
 Section Rel.
+Variable d : dialect.
 Variable ctor_ok : string -> string -> bool -> Prop.
+Notation compile := (Compile.compile d).
+Notation compile_block := (Compile.compile_block d).
+Notation compile_list := (Compile.compile_list d).
+Notation compile_arms := (Compile.compile_arms d).
+Notation compile_sarms := (Compile.compile_sarms d).
+Notation switch_u := (Compile.switch_u d).
+Notation switch_s := (Compile.switch_s d).
+Notation nv := (Compile.nv d).
+Notation nvb := (Compile.nvb d).
+Notation nva := (Compile.nva d).
+Notation nvs := (Compile.nvs d).
+
 Variable gfuncs : list (var * (list var * list gstmt)).
 
 Notation wfe := (wfe true ctor_ok).
